@@ -214,6 +214,16 @@ def module_fn(ex, st, mod, attr, e, cx, k):
         return ex.ev_list(st, args, cx, f)
     if mod == 're' and attr == 'compile':
         return k(st, SV(OPAQUE, I(0)))
+    if mod == 'os.path*':
+        # path manipulation is opaque: some string / some boolean (the file system is outside the contract)
+        def f(st, vs):
+            if attr == 'exists':
+                return k(st, ex.fresh(BOOL, 'exists'))
+            if attr == 'splitext':
+                ty = T.tup(STR, STR)
+                return k(st, ex.fresh(ty, 'splitext'))
+            return k(st, ex.fresh(STR, 'path'))
+        return ex.ev_list(st, args, cx, f)
     if mod == 'os' or mod.startswith('os.'):
         raise VCError(f'os function {attr} needs an assumed contract')
     raise VCError(f'module function {mod}.{attr} outside subset')
